@@ -14,6 +14,7 @@ NOT_DECIDED = [
     "equality of the hex string for every byte string (follows from D1,D3,D4 + std formatting)",
 ]
 CONFIG_SENSITIVE = False
+DESUGAR = True
 
 ENUM = "digest::Digest"
 DISPATCH = {
